@@ -33,15 +33,32 @@ def walk_tree(case):
 
     tables = L.tables()
     plan = plans.make_plan(case["k"], case["seed"], tables) if case.get("k") is not None else None
+    blank = case.get("blank")
+    if case.get("blank_codes"):
+        # "every tree that is RETURNED is well typed": code / flag columns (which the format requires to be filled) left blank in one
+        # record -- the reader may refuse such a product; if it returns a tree, the tree must still be typed
+        lp = dict(L.SMALL_LEADER)
+        if case["level"] == "1.1":
+            lp["nmap"] = 0
+        inst = L.instance(**lp)
+        seen = {}
+        blank = []
+        for rec in inst["records"]:
+            nth = seen.get(rec["name"], 0)
+            seen[rec["name"]] = nth + 1
+            if rec["name"] == case["blank_codes"]:
+                blank += [("LED", rec["name"], nth, path) for path, off, leaf, arr in L.leaves(rec) if leaf["r"] == "code" and leaf["k"] in ("ai", "s")]
     b = product.build_product(level=case["level"], images=case["images"], seed=case["seed"], plan=plan, ctx=case.get("ctx"),
-                              blank=case.get("blank"))
+                              blank=blank, summary_extra=case.get("summary_extra"))
     url = imgrun.put_on_fs(b, case["fs"], f"c12_{case['seed']}_{case.get('k')}")
     res = {"case": case, "bad": [], "n_vars": 0, "n_attrs": 0}
     try:
         try:
             tree = ceos_alos2.open_alos2(url, backend_options=dict(use_cache=False, records_per_chunk=case.get("rpc", 2)))
         except BaseException as e:  # noqa: B902
-            res["bad"].append(("open", f"{type(e).__name__}: {str(e)[:150]}"))
+            if not case.get("blank_codes"):
+                res["bad"].append(("open", f"{type(e).__name__}: {str(e)[:150]}"))
+            res["refused"] = True
             return res
         for node in tree.subtree:
             ds = node.to_dataset(inherit=False)
@@ -123,6 +140,11 @@ def body(chk):
             cases.append(dict(level=level, images=images, seed=chk.seed + si, k=k, fs=("local", "vtrace", "memory", "file")[si % 4]))
     cases.append(dict(level="1.5", images=(("HH", None, 2, 2),), seed=chk.seed + 9, k=1, ctx=dict(designator="LCC-PROJECTION"), fs="local"))
     cases.append(dict(level="1.5", images=(("HH", None, 2, 2),), seed=chk.seed + 9, k=2, ctx=dict(designator="UPS-PROJECTION"), fs="local"))
+    # sections the reader has no transformer for (browse image, future additions): whatever it does with them, attributes stay plain
+    cases.append(dict(level="1.5", images=(("HH", None, 2, 2),), seed=chk.seed + 11, k=None, fs="local",
+                      summary_extra=['Brs_BrowseImageFileName="BRS-HH-ALOS2014410740-140829-WBDR1.5RUD.jpg"', 'Brs_BrowseBitPixel="8"', 'Xyz_Unknown=""']))
+    for ri, recname in enumerate(["attitude", "dataset_summary", "platform_position", "facility_related_data_5", "radiometric_data", "data_quality_summary"]):
+        cases.append(dict(level=("1.5", "1.1")[ri % 2], images=(("HH", None, 2, 2),), seed=chk.seed + 20 + ri, k=None, fs="local", blank_codes=recname))
     lc.prepare_layouts(cases)
     results = checklib.pmap(walk_tree, cases, chk.scratch)
     nv = na = 0
